@@ -13,17 +13,121 @@ import vlib
 FAM = "DvFib"
 
 
+U64 = 1 << 64
+
+
+def classify(points):
+    """points: [(a, b, res)] for a test over uint64 a, b. Find the comparisons  u64(x - y) >= T  (x, y = a, b in either
+    order, T in 0..330; `> T` is the same as `>= T+1`) that reproduce every observation. Returns the list of (orient, T)."""
+    pts = [(a, b, r) for a, b, r in points if r in (0, 1)]
+    if len(pts) < 50 or len(set(r for _, _, r in pts)) < 2:
+        return []
+    out = []
+    for orient in ("ab", "ba"):
+        for T in range(0, 332):
+            ok = True
+            for a, b, r in pts:
+                d = (a - b) % U64 if orient == "ab" else (b - a) % U64
+                if (1 if d >= T else 0) != r:
+                    ok = False; break
+            if ok:
+                out.append((orient, T))
+    return out
+
+
+def committed_defs():
+    """definitions of the committed reference translation (fallback values): name -> full `Definition ... .` line"""
+    txt = open(os.path.join(vlib.VERIF, "coq", FAM, "GenConsts.reference")).read()
+    defs = {}
+    for l in txt.split("\n"):
+        if l.startswith("Definition "):
+            defs[l.split()[1]] = l
+    return defs
+
+
 def translate(R):
+    """coq/DvFib/GenConsts.v from (1) compiler-evaluated constants and behavioural probes of the two threshold tests run on
+    the real code through the harness, (2) a structural AST reading of the tests, cross-checked against the probes.
+    An item that cannot be located is kept from the committed reference with a note (no alarm): the correspondence
+    run and the oracles decide. Call after the harness is built."""
+    exe = os.path.join(R.work, "h.test")
+    probe = os.path.join(R.work, "probe")
+    notes, incomplete, origin = [], [], {}
+    consts, pub_pts, fetch_pts = {}, [], []
+    if os.path.exists(exe):
+        env = vlib.goenv(); env.update(VERIF_OUT=probe)
+        rc, out = vlib.sh([exe, "-test.run", "TestProbe", "-test.count=1"], env=env, timeout=600)
+        if rc == 0 and os.path.exists(probe):
+            for l in open(probe):
+                f = l.split()
+                if len(f) == 3 and f[0] == "const": consts[f[1]] = int(f[2])
+                elif len(f) == 4 and f[0] == "pub": pub_pts.append((int(f[1]), int(f[2]), int(f[3])))
+                elif len(f) == 4 and f[0] == "fetch": fetch_pts.append((int(f[1]), int(f[2]), int(f[3])))
+        else:
+            notes.append("translator: behavioural probe did not run (%s)" % out.strip()[-120:])
     src = os.path.join(vlib.VERIF, "translators", "dvfib", "main.go")
-    rc, out = vlib.sh([vlib.GO, "run", src, vlib.REPO], env=vlib.goenv(), timeout=300, cwd=os.path.dirname(src))
-    if rc != 0 or "Definition pub_snap_test" not in out:
-        R.proof_problems.append("translation of dv constants / snapshot-threshold tests failed: " + out.strip()[-300:])
-        return False
-    # keep only the Coq text (go run may print toolchain noise on stderr, merged by vlib.sh)
-    start = out.index("(* DvFib/GenConsts.v")
-    changed = vlib.write_if_changed(os.path.join(vlib.COQ, FAM, "GenConsts.v"), out[start:])
-    R.coverage["translated"] = dict(file="coq/DvFib/GenConsts.v", changed=changed,
-                                    definitions=[l.strip() for l in out[start:].split("\n") if l.startswith("Definition")])
+    rc, out = vlib.sh([vlib.GO, "run", src, vlib.REPO] + ([probe] if pub_pts else []), env=vlib.goenv(), timeout=300, cwd=os.path.dirname(src))
+    ast_ = {}
+    for l in out.split("\n"):
+        f = l.split(" ", 1)
+        if len(f) == 2 and f[0] in ("pub_src", "pub_coq", "pub_fail", "pub_probe", "fetch_src", "fetch_coq", "fetch_fail", "fetch_probe", "fetch_lit", "fetch_op"):
+            ast_[f[0]] = f[1].strip()
+    ref = committed_defs()
+    lines = []
+
+    def const(coqname, goname):
+        if goname in consts:
+            origin[coqname] = "compiler-evaluated constant (verif hook Vf19Consts)"
+            return "Definition %s : N := %d." % (coqname, consts[goname])
+        incomplete.append(coqname); notes.append("translator: %s not located; reference value kept; the correspondence run decides" % goname)
+        return ref[coqname]
+
+    def test(coqname, args, key, pts, orient_vars):
+        cand = sorted(set(classify(pts)))
+        agree = ast_.get(key + "_probe", "").startswith("agree")
+        if key + "_coq" in ast_ and (agree or not pts):
+            origin[coqname] = "source expression `%s`%s" % (ast_.get(key + "_src", "?"), " (agrees with %s probe points)" % ast_[key + "_probe"].split()[1] if agree else "")
+            return "Definition %s (%s) : bool := %s." % (coqname, args, ast_[key + "_coq"]), cand
+        if len(cand) == 1:
+            o, T = cand[0]
+            x, y = orient_vars if o == "ab" else orient_vars[::-1]
+            origin[coqname] = "behaviour (probe of the real code at %d points): u64(%s - %s) >= %d" % (len(pts), x, y, T)
+            notes.append("translator: %s derived from behavioural probes (source shape not recognised: %s)" % (coqname, ast_.get(key + "_fail", ast_.get(key + "_probe", "no structural match"))))
+            return "Definition %s (%s) : bool := (%d <=? (u64_sub %s %s))." % (coqname, args, T, x, y), cand
+        incomplete.append(coqname)
+        notes.append("translator: %s not located in the source and not classified by the probes; reference value kept; the correspondence run decides" % coqname)
+        return ref[coqname], cand
+
+    lines.append(const("cost_infinity", "CostInfinity"))
+    lines.append(const("nlsr_origin", "NlsrOrigin"))
+    d, _ = test("pub_snap_test", "snapshotAt seq : N", "pub", pub_pts, ("snapshotAt", "seq"))
+    lines.append(d)
+    d, fc = test("fetch_snap_test", "latest known : N", "fetch", fetch_pts, ("latest", "known"))
+    lines.append(d)
+    # fetch_threshold: snapshot iff more than this many behind
+    thr = None
+    if "fetch_coq" in ast_ and "fetch_lit" in ast_ and ast_.get("fetch_op") in (">", ">=") and d.endswith(ast_["fetch_coq"] + "."):
+        thr = int(ast_["fetch_lit"]) - (1 if ast_["fetch_op"] == ">=" else 0)
+    elif len(fc) == 1 and fc[0][1] >= 1:
+        thr = fc[0][1] - 1
+    if thr is not None and thr >= 0:
+        origin["fetch_threshold"] = "from fetch_snap_test above: a snapshot is requested iff more than this many publications behind"
+        lines.append("Definition fetch_threshold : N := %d." % thr)
+    else:
+        incomplete.append("fetch_threshold"); lines.append(ref["fetch_threshold"])
+    text = ("(* DvFib/GenConsts.v — GENERATED by checks/C19.py (translate) on every run; do not edit by hand.\n"
+            "   Sources: compiler-evaluated constants and behavioural probes of the real code (harness/dvfib TestProbe), and the\n"
+            "   structural AST reading of translators/dvfib cross-checked against the probes. GenConsts.reference is the\n"
+            "   committed fallback. *)\nFrom DvFib Require Import U64.\nOpen Scope N_scope.\n\n")
+    for l in lines:
+        name = l.split()[1]
+        text += "(* %s *)\n%s\n" % (origin.get(name, "kept from the committed reference"), l)
+    changed = vlib.write_if_changed(os.path.join(vlib.COQ, FAM, "GenConsts.v"), text)
+    R.coverage["translated"] = dict(file="coq/DvFib/GenConsts.v", changed=changed, definitions=lines, origin=origin,
+                                    probe_points=dict(pub=len(pub_pts), fetch=len(fetch_pts)))
+    if incomplete:
+        R.coverage["translation_incomplete"] = incomplete
+    R.notes += notes
     return True
 
 
@@ -208,6 +312,9 @@ def link_c18(R):
 
 
 def build(R):
+    ok_h, log_h = vlib.go_test_build("dvfib", os.path.join(R.work, "h.test"))
+    if not ok_h and os.path.exists(os.path.join(R.work, "h.test")):
+        os.remove(os.path.join(R.work, "h.test"))
     translate(R)
     if R.prove(FAM):
         link_c18(R)
@@ -216,9 +323,8 @@ def build(R):
     ok, runner, log = vlib.extract_build(FAM)
     if not ok:
         R.proof_problems.append("extraction/OCaml build of the DvFib model failed"); R.log(log[-1500:]); return None
-    ok, log = vlib.go_test_build("dvfib", os.path.join(R.work, "h.test"))
-    if not ok:
-        R.proof_problems.append("Go harness dvfib no longer builds against the tree: " + log[-400:]); R.log(log[-1500:]); return None
+    if not ok_h:
+        R.proof_problems.append("Go harness dvfib no longer builds against the tree: " + log_h[-400:]); R.log(log_h[-1500:]); return None
     return runner
 
 
